@@ -174,10 +174,10 @@ namespace c13
         auto nn = u.norm2_async();
         auto mx = u.max_abs_element_async();
         out.scal.push_back(nn.wait());
-        if(!t2._finished) t2.wait();      // (an empty ticket cannot be waited for: separate finding)
+        t2.wait();                        // also on ranks without neighbours (empty ticket; fixed in 43ca79cee)
         out.scal.push_back(mx.wait());
         out.scal.push_back(d.wait());
-        if(!t1._finished) t1.wait();
+        t1.wait();
         put(0, x.local()); put(1, y.local()); put(2, u.local()); put(3, v.local());
       }
       break;
